@@ -850,7 +850,7 @@ def check_contract(ct, tier, seed, k_samples):
         if fails:
             continue
         # encoder cross-check on the same input
-        if ct.opts.get('concolic', True):
+        if ct.opts.get('concolic', True) and concolic_ok + len(mismatches) < ct.opts.get('concolic_n', 5 if tier == 'quick' else 50):
             c2, path, err = run_concolic(ct, dict(ctx.draws), rng)
             if err is None:
                 inhabited.add(tuple(sorted((k, tuple(sorted(v[1]))) for k, v in path.signs.items()))[:0] or
